@@ -376,7 +376,7 @@ deriving Repr, DecidableEq
     offset it returns, which is where the next `Decode` starts.  `fuel` only makes the definition
     structurally recursive: running out of it (`none`) is the explicit outcome "the loop does not
     terminate" (`ggufLayers_terminates` shows it never happens for the tree's decoder). -/
-def ggufLayersLoop (bs : Bytes) (budget : Option Nat) (g : Guards) :
+def ggufLayersLoop (bs : Bytes) (budget : Option Nat) (g : Guards) (maxSeek : Nat) :
     Nat → Nat → List GLayer → Option (Except Err (List GLayer))
   | 0, offset, acc => if offset < bs.length then none else some (.ok acc)
   | fuel+1, offset, acc =>
@@ -386,19 +386,23 @@ def ggufLayersLoop (bs : Bytes) (budget : Option Nat) (g : Guards) :
       | .error e => some (.error e)
       | .ok d =>
         let n := d.endOffset
+        -- the upload is an os.File: lseek refuses offsets above the file system's limit (EINVAL); with backward
+        -- seeks rejected the positions only grow, so the largest one the decode asked for is its end offset
+        if n > maxSeek then some (.error (.invalid "seek beyond the file system's limit")) else
         let whole : Bool := n = bs.length ∧ offset = 0
         -- otherwise NewLayer(io.NewSectionReader(blob, offset, n)): n bytes from offset, cut at the end of the file
         let size := if whole then bs.length else min n (bs.length - offset)
-        ggufLayersLoop bs budget g fuel n (acc ++ [⟨offset, size, whole, d⟩])
+        ggufLayersLoop bs budget g maxSeek fuel n (acc ++ [⟨offset, size, whole, d⟩])
     else some (.ok acc)
 
 /-- `detectContentType` on the first 512 bytes (a file shorter than 4 bytes is read zero-extended) + the loop;
-    `none` = the loop does not terminate -/
-def ggufLayers (bs : Bytes) (budget : Option Nat := none) (g : Guards := Guards.tree) :
+    `none` = the loop does not terminate.  `maxSeek`: the largest offset the file system lets a file seek to
+    (2^63-1 on tmpfs, 16 TiB-4 KiB on ext4 with 4 KiB blocks, …; measured by the driver). -/
+def ggufLayers (bs : Bytes) (budget : Option Nat := none) (g : Guards := Guards.tree) (maxSeek : Nat := two63 - 1) :
     Option (Except Err (List GLayer)) :=
   let magic := leVal ((bs.take 4) ++ List.replicate (4 - (bs.take 4).length) 0)
   if magic ≠ magicLE ∧ magic ≠ magicBE then some (.error (.invalid "only gguf supported"))
-  else ggufLayersLoop bs budget g bs.length 0 []
+  else ggufLayersLoop bs budget g maxSeek bs.length 0 []
 
 /-! ## encoder -/
 
